@@ -619,6 +619,11 @@ def cases(draw):
         return c
     if law == 'units':
         c['t'] = draw(span)
+        if draw(st.integers(0, 2)) == 0:
+            # spans of centuries (the difference of two far-apart dates):
+            # beyond 2**53 microseconds a float no longer holds them exactly
+            c['t'][0] = draw(st.integers(-3600000, 3600000))
+            c['t'][5] = draw(st.sampled_from([1, -1, 3, 999999, 7]))
         return c
     if law == 'timespan-arith':
         c['t'] = draw(span)
